@@ -11,6 +11,7 @@ mod c13;
 mod c14;
 mod c16;
 mod c17;
+mod c18;
 mod c19;
 mod c20;
 mod evprog;
@@ -48,6 +49,7 @@ fn main() {
             "c14" => c14::replay(case),
             "c16" => c16::replay(case),
             "c17" => c17::replay(case),
+            "c18" => c18::replay(case),
             "c19" => c19::replay(case),
             "c20" => c20::replay(case),
             other => {
@@ -73,6 +75,7 @@ fn main() {
         "c14" => c14::cmd(&args),
         "c16" => c16::cmd(&args),
         "c17" => c17::cmd(&args),
+        "c18" => c18::cmd(&args),
         "c19" => c19::cmd(&args),
         "c20" => c20::cmd(&args),
         other => {
